@@ -177,8 +177,10 @@ CLAIMED = {
                  "segments in either notation and is a fixed point (guards: wfc, and the property's own exclusion "
                  "of dot texts that begin with '/'); == iff equal segments (guard no_dot_key = listed finding F23, "
                  "with _refuted witness); append-then-pop restores the path for tails written after a separator "
-                 "(other tails are judged on the real code only).  Guard wf contains the listed finding F21 "
-                 "(quote-wrapped search terms, _refuted witness).  Side conditions over the regenerated "
+                 "(other tails are judged on the real code only).  The parser half of finding F21 (an escaped or "
+                 "regex search term that starts and ends with the same quote was stripped of them) is repaired and "
+                 "no finding is left inside guard wf (C08_parse_render_F21); its printer half (str() does not escape "
+                 "quotes in a term) stays a listed finding inside guard wfc (C08_canon_F21_refuted).  Side conditions over the regenerated "
                  "character tables are closed by vm_compute, so editing an escape list in the source re-opens a "
                  "proof obligation.  Tie: all segment sequences of length <= 2 (quick) / 3 (thorough) over a "
                  "grammar of every kind, rendered by the reference writer and by str()."),
@@ -281,7 +283,7 @@ CLAIMED = {
         "technique": "Coq proof (fuel sufficiency; loop invariant over common anchor names) + differential correspondence + dump/reload judge",
     },
     "C15": {
-        "text": ("17 theorems (Coq, no axioms) over the evaluator model with the keyword model plugged in "
+        "text": ("18 theorems (Coq, no axioms) over the evaluator model with the keyword model plugged in "
                  "(EvalKw.v): for every document, every prepared path of the fragment INCLUDING keyword-search "
                  "segments at any position, and all answering oracles, the stream of a required query, of exists() "
                  "and of an optional query ends normally or with a YAMLPathException (optional: or at the node "
@@ -297,7 +299,8 @@ CLAIMED = {
                  "repaired parser (C15_bracket_collector_refused); for paths prepared from a TEXT the fragment's "
                  "type/attribute pairing demands are theorems now (C15_prepared_in_fragment[_kw], from the parser "
                  "invariant C14_segments_paired) and C15_*_only_ype_text state the property for every text without a "
-                 "collector segment whose keyword parameter texts split.  Tie: exhaustive small documents x paths "
+                 "collector segment whose keyword parameter texts split (that demand is NOT a parser guarantee: "
+                 "'[max(\\')]' ends in ValueError, listed finding F31, C15_kw_params_refuted).  Tie: exhaustive small documents x paths "
                  "with indexes / slice bounds negative, in range, out of range, all search forms, keyword "
                  "segments at every position, scalar collectors; required / optional / exists()."),
         "design_ref": "DESIGN.md section 4 (C15), docs/C15.md",
